@@ -917,10 +917,23 @@ func TestTableNearMiss(t *testing.T) {
 	pk.SkipIfReplay(t)
 	col := pk.NewCollector()
 	k := 0
-	for _, typ := range tableTypes() {
+	deep := map[string]bool{}
+	for _, dt := range deepTypes() {
+		deep[dt.Canon()] = true
+	}
+	for _, typ := range append(tableTypes(), deepTypes()...) {
 		for variant := 0; variant < 3; variant++ {
 			vg := &valGen{ch: fixedCh{variant}}
-			v := vg.conforming(typ)
+			var v hs.Value
+			if deep[typ.Canon()] {
+				if variant > 0 {
+					continue
+				}
+				v = singlePath(typ)
+				pk.Class("table:deep-chain")
+			} else {
+				v = vg.conforming(typ)
+			}
 			var ns []node
 			nodes(v, typ, nil, &ns)
 			pairs := []Pair{{V: hs.WV{V: v}, T: typ, Class: "conforming"}}
